@@ -222,6 +222,23 @@ func Check(r *ev.Run, replay string) {
 			return
 		}
 		fmt.Println(in.Src)
+		if in.Fam == "session" {
+			label, perPiece := in.Src, false
+			if strings.HasPrefix(label, "[a new compiler per piece] ") {
+				label, perPiece = strings.TrimPrefix(label, "[a new compiler per piece] "), true
+			}
+			var seq []int
+			for _, piece := range strings.Split(label, " ;; ") {
+				for i, p := range sessionPieces {
+					if p == piece {
+						seq = append(seq, i)
+					}
+				}
+			}
+			session(r, rt.NewEnv(nil), seq, perPiece)
+			r.Outcome("replay")
+			return
+		}
 		one(r, rt.NewEnv(nil), progen.Program{Fam: in.Fam, Raw: in.Src}, st, true)
 		r.Outcome("replay")
 		return
@@ -249,7 +266,8 @@ func Check(r *ev.Run, replay string) {
 		ev.ParFor(16, func(w int) {
 			envs[w] = rt.NewEnv(nil)
 			for i := w; i < len(ss); i += 16 {
-				session(r, envs[w], ss[i])
+				session(r, envs[w], ss[i], false)
+				session(r, envs[w], ss[i], true)
 			}
 		})
 		r.Set("incremental_sessions", len(ss))
